@@ -28,3 +28,5 @@ import NetflowModel.Props.C17b
 import NetflowModel.Props.H1
 import NetflowModel.Props.Ctl
 import NetflowModel.Props.ExportGen
+import NetflowModel.Props.C04c
+import NetflowModel.Props.C14b
